@@ -1,0 +1,161 @@
+// Verification hooks. Compiled only with `--cfg pdb_verif`; with the cfg off this file is not
+// part of the crate. Everything here is observation or stepping: no hook changes what the
+// database computes (the one exception, scaled thresholds, has its own cfg `pdb_verif_scaled`).
+
+use std::sync::atomic::{AtomicUsize, Ordering};
+
+/// Callback invoked after every store into a memory mapped table / index / ref-count file.
+pub type StoreCb = fn(path: &std::path::Path, offset: u64, data: &[u8]);
+
+static STORE_CB: AtomicUsize = AtomicUsize::new(0);
+
+pub fn set_store_cb(cb: Option<StoreCb>) {
+	STORE_CB.store(cb.map_or(0, |f| f as usize), Ordering::SeqCst);
+}
+
+#[inline]
+pub fn store(path: &std::path::Path, offset: u64, data: &[u8]) {
+	let cb = STORE_CB.load(Ordering::Relaxed);
+	if cb != 0 {
+		let f: StoreCb = unsafe { std::mem::transmute::<usize, StoreCb>(cb) };
+		f(path, offset, data);
+	}
+}
+
+/// Event witness callback: (kind, a, b).
+pub type EvCb = fn(kind: u32, a: u64, b: u64);
+static EV_CB: AtomicUsize = AtomicUsize::new(0);
+
+pub const EV_COPY_TO_OVERLAY: u32 = 1;
+pub const EV_DEFER_COMMIT: u32 = 2;
+pub const EV_TRIGGER_REINDEX: u32 = 3;
+pub const EV_CLEAR_REPLAY_LOGS: u32 = 4;
+pub const EV_ENACT_RECORD: u32 = 5;
+pub const EV_DROP_INDEX: u32 = 6;
+
+pub fn set_ev_cb(cb: Option<EvCb>) {
+	EV_CB.store(cb.map_or(0, |f| f as usize), Ordering::SeqCst);
+}
+
+#[inline]
+pub fn ev(kind: u32, a: u64, b: u64) {
+	let cb = EV_CB.load(Ordering::Relaxed);
+	if cb != 0 {
+		let f: EvCb = unsafe { std::mem::transmute::<usize, EvCb>(cb) };
+		f(kind, a, b);
+	}
+}
+
+/// When set, `Db::open*` does not start the four std worker threads even if
+/// `with_background_thread` is true; the harness runs the worker bodies itself
+/// through `Db::verif_run_worker`.
+static EXTERNAL_WORKERS: AtomicUsize = AtomicUsize::new(0);
+
+pub fn set_external_workers(on: bool) {
+	EXTERNAL_WORKERS.store(on as usize, Ordering::SeqCst);
+}
+
+pub fn external_workers() -> bool {
+	EXTERNAL_WORKERS.load(Ordering::SeqCst) != 0
+}
+
+/// Pipeline stages for `Db::verif_step`.
+#[derive(Clone, Copy, Debug, PartialEq, Eq, Hash, PartialOrd, Ord)]
+pub enum Stage {
+	ProcessCommits,
+	ProcessReindex,
+	FlushLogs,
+	EnactOne,
+	CleanLogs,
+}
+
+/// Worker kinds for `Db::verif_run_worker`.
+#[derive(Clone, Copy, Debug, PartialEq, Eq)]
+pub enum Worker {
+	Log,
+	Flush,
+	Commit,
+	Cleanup,
+}
+
+/// 64-bit FNV-1a style accumulator used for the state digest (two lanes => 128 bits).
+#[derive(Clone, Debug)]
+pub struct Hasher {
+	a: u64,
+	b: u64,
+}
+
+impl Default for Hasher {
+	fn default() -> Self {
+		Hasher { a: 0xcbf29ce484222325, b: 0x84222325cbf29ce4 }
+	}
+}
+
+impl Hasher {
+	#[inline]
+	pub fn bytes(&mut self, data: &[u8]) {
+		self.u64(data.len() as u64);
+		for &x in data {
+			self.a = (self.a ^ x as u64).wrapping_mul(0x100000001b3);
+			self.b = (self.b ^ x as u64).wrapping_mul(0x9E3779B97F4A7C15).rotate_left(5);
+		}
+	}
+	#[inline]
+	pub fn u64(&mut self, v: u64) {
+		for i in 0..8 {
+			let x = (v >> (i * 8)) & 0xff;
+			self.a = (self.a ^ x).wrapping_mul(0x100000001b3);
+			self.b = (self.b ^ x).wrapping_mul(0x9E3779B97F4A7C15).rotate_left(5);
+		}
+	}
+	pub fn tag(&mut self, t: &str) {
+		self.bytes(t.as_bytes());
+	}
+	pub fn finish(&self) -> u128 {
+		((self.a as u128) << 64) | self.b as u128
+	}
+}
+
+/// Summary of all mutable in-memory state reachable from the database handle.
+#[derive(Clone, Debug, Default, PartialEq, Eq)]
+pub struct Digest {
+	/// 128-bit hash over every field listed in DESIGN.md H4.
+	pub hash: u128,
+	pub commit_queue_len: usize,
+	pub commit_queue_bytes: usize,
+	pub commit_overlay_entries: usize,
+	pub log_overlay_index: usize,
+	pub log_overlay_value: usize,
+	pub log_overlay_ref_count: usize,
+	pub appending: bool,
+	pub appending_size: u64,
+	pub reading: bool,
+	pub read_queue: usize,
+	pub cleanup_queue: usize,
+	pub log_pool: usize,
+	pub replay_queue: usize,
+	pub next_record_id: u64,
+	pub last_enacted: u64,
+	pub next_reindex: u64,
+	pub log_queue_bytes: i64,
+	pub bg_err: bool,
+	pub to_dereference: usize,
+	pub reindex_queue: usize,
+	pub index_bits: Vec<u8>,
+}
+
+/// Format constants the independent file parser cross-checks itself against.
+pub struct Constants {
+	pub sizes: &'static [u16],
+	pub btree_order: usize,
+	pub index_meta_size: usize,
+	pub index_chunk_len: usize,
+	pub multipart_entry_size: u16,
+}
+
+#[cfg(pdb_verif_scaled)]
+pub const MAX_COMMIT_QUEUE_BYTES: usize = 64;
+#[cfg(pdb_verif_scaled)]
+pub const MAX_LOG_QUEUE_BYTES: i64 = 512;
+#[cfg(pdb_verif_scaled)]
+pub const MAX_LOG_FILES: usize = 1;
